@@ -45,7 +45,8 @@ META = {
     'lean_props': ['DoitModel.Props.C05'],
     'level': 'proof',
     'budget': {'quick': 40, 'thorough': 480},
-    'anchors': ['doit/runner.py::Runner.finish', 'doit/runner.py::Runner.run_all', 'doit/action.py::CmdAction.execute', 'doit/runner.py::Runner._handle_task_error', 'doit/runner.py::Runner.select_task',
+    'anchors': ['doit/task.py::Task.execute', 'doit/control.py::TaskControl._get_wild_tasks',
+                'doit/dependency.py::Dependency.close', 'doit/dependency.py::JsonDB.dump', 'doit/runner.py::Runner.finish', 'doit/runner.py::Runner.run_all', 'doit/action.py::CmdAction.execute', 'doit/runner.py::Runner._handle_task_error', 'doit/runner.py::Runner.select_task',
                 'doit/runner.py::Runner.process_task_result', 'doit/runner.py::Runner.run_tasks',
                 'doit/runner.py::Runner.execute_task', 'doit/runner.py::MRunner.get_next_job',
                 'doit/runner.py::MRunner.run_tasks', 'doit/runner.py::MRunner._process_result',
@@ -89,7 +90,7 @@ META = {
                   'pass), is fully processed, and that its nTasks-round fixed-point iterations are complete.',
     'rule': 'runlib DAG generator (3-8 tasks, all edge kinds, groups, shared deps, calc deliveries, up-to-date and '
             'ignored tasks) with failure-heavy oracle: outcome failed/error/saveerr x how return/raise/object, status '
-            'error (missing file_dep), runs cut short by a raising reporter / an interrupting teardown, cmd-action placements (exit status 1/2/126/127/200, death by SIGKILL/SIGTERM/SIGSEGV, list and shell form); backend json|dbm|sqlite3; warm-up run or not; runner serial | thread k=1..4 x '
+            'error (missing file_dep), multi-action tasks failing in action 2 of 3, wildcard task_dep on a group, values the DB cannot store (set/bytes), lazily invalid actions (int / 4-tuple), runs cut short by a raising reporter / an interrupting teardown, cmd-action placements (exit status 1/2/126/127/200, death by SIGKILL/SIGTERM/SIGSEGV, list and shell form); backend json|dbm|sqlite3; warm-up run or not; runner serial | thread k=1..4 x '
             'schedule policy | process k=2,3; non-trivial = at least one failure report and one dependency edge; '
             'distinct = distinct rendered case + backend + warm + schedule',
     'assumptions': ['actions touch only their own targets (granularity assumption of M1 for thread mode)',
